@@ -254,6 +254,7 @@ func runC13(c *Ctx) {
 	c.Floor("C13-R3", "credit/debit iterator step functions", nIt, 3)
 	checkReverseSeekCorrected(c, "C13-R3")
 	checkSeekHeightNonNegative(c, "C13-R3")
+	checkRangeCallbackCopies(c, "C13-R2")
 
 	runFlagTyping(c, "C13-R4")
 	checkCreditRewriteFlags(c, "C13-R4")
